@@ -6,6 +6,9 @@ ids=${@:-$(ls)}
 bad=0
 for id in $ids; do
   prop=${id%%-*}
+  # (a change seeded against one property may be caught by the check of another: meta.json names it then)
+  alt=$(python3 -c "import json,sys; print(json.load(open('/verif/seeded/$id/meta.json')).get('check_property',''))" 2>/dev/null)
+  [ -n "$alt" ] && prop=$alt
   wt=/tmp/wt_seedcheck_$id
   git -C /repo worktree remove --force $wt >/dev/null 2>&1
   git -C /repo worktree add --detach $wt HEAD >/dev/null 2>&1
